@@ -543,6 +543,25 @@ pub fn eval_session_check(check: &str, case: &Case, replies: &[String]) -> Optio
                 _ => Ok(()),
             }
         }
+        // C15: file mode and piped interactive mode of the real binary agree (or file mode refused because of static errors)
+        ["cli-same", i] => {
+            let i: usize = i.parse().unwrap();
+            if replies[i] == "same" || replies[i] == "refused" {
+                Ok(())
+            } else {
+                let parts: Vec<&str> = replies[i].splitn(4, ':').collect();
+                if parts.len() == 4 {
+                    Err(format!(
+                        "`abasic FILE` and the piped session differ on {}: file mode {:?} vs piped {:?}",
+                        parts[1],
+                        crate::imp::unhex(parts[2]).unwrap_or_default(),
+                        crate::imp::unhex(parts[3]).unwrap_or_default()
+                    ))
+                } else {
+                    Err(format!("cli comparison failed: {}", replies[i]))
+                }
+            }
+        }
         ["no-syntax-error"] => {
             let mut res = Ok(());
             for i in 0..case.ops.len() {
